@@ -290,8 +290,8 @@ Proof.
   apply obind_ok in H as [sn [Hsn H]]. apply subnet_new_ok in Hsn as [E L]. inversion H; subst. inversion H1; subst. exact L.
 Qed.
 
-Lemma pool_bounds : forall base len, len <= 32 -> base <= mask4 len -> 1 < 2 ^ (32 - len) - 2 ->
-  base + 1 < 4294967296 /\ base + (2 ^ (32 - len) - 2 - 1) < 4294967296.
+Lemma pool_bounds : forall base len, len <= 32 -> base <= mask4 len -> 1 < 2 ^ (32 - len) - 1 ->
+  base + 1 < 4294967296 /\ base + (2 ^ (32 - len) - 1 - 1) < 4294967296.
 Proof. intros base len L B S. pose proof (mask4_le32 len L). lia. Qed.
 
 Lemma apply_subnet_range_total : forall base len, len <= 32 -> base <= mask4 len -> np (apply_subnet_range base len).
@@ -299,7 +299,7 @@ Proof.
   intros base len L B. unfold apply_subnet_range, sub_chk.
   rewrite (proj2 (N.leb_le len 32) L). cbn [obind].
   destruct (32 - len =? 32); [apply np_err|].
-  unfold sat_sub. destruct (1 <? 2 ^ (32 - len) - 2) eqn:E; [|apply np_ok].
+  unfold sat_sub. destruct (1 <? 2 ^ (32 - len) - 1) eqn:E; [|apply np_ok].
   apply N.ltb_lt in E. destruct (pool_bounds base len L B E) as [B1 B2].
   unfold add_chk. change (pow2 32) with 4294967296.
   rewrite (proj2 (N.ltb_lt _ _) B1). cbn [obind].
@@ -534,8 +534,8 @@ Proof.
   assert (H4 : 4 <= 2 ^ (32 - len)).
   { change 4 with (2 ^ 2). apply N.pow_le_mono_r; lia. }
   destruct (32 <=? 32 - len) eqn:X; [apply N.leb_le in X; lia|].
-  unfold sub_chk. rewrite (proj2 (N.leb_le 2 (2 ^ (32 - len)))) by lia. cbn [obind].
-  destruct (1 <? 2 ^ (32 - len) - 2) eqn:E; [|apply np_ok].
+  unfold sub_chk. rewrite (proj2 (N.leb_le 1 (2 ^ (32 - len)))) by lia. cbn [obind].
+  destruct (1 <? 2 ^ (32 - len) - 1) eqn:E; [|apply np_ok].
   apply N.ltb_lt in E.
   destruct (pool_bounds (network4 a len) len L (land_le_r _ _) E) as [B1 B2].
   unfold add_chk. change (pow2 32) with 4294967296.
